@@ -69,21 +69,84 @@ fn siqs_walk(a: &[&str]) -> Option<String> {
         return Some(out + " | no-a");
     }
     let a_int = a_ints[aidx % a_ints.len()];
+    write!(out, " tgt={} na={}", f.target, a_ints.len()).unwrap();
+    Some(siqs_body(out, &nint, &fb, &f, &a_int, mm, step, tail, maxpolys))
+}
+
+/// siqs_custom n k fbsize mm i1,i2,... a step tail maxpolys
+/// The selection of A factors is given by indices into the factor base and A is given explicitly
+/// (`Factors` is a public structure; its table of inverses is filled as `select_siqs_factors` does).
+fn siqs_custom(a: &[&str]) -> Option<String> {
+    let [n, k, fbsize, mm, sel, aval, step, tail, maxpolys] = a else {
+        return None;
+    };
+    let nk = uint_of(n)? * Uint::from(u32_of(k)?);
+    let fbsize: u32 = fbsize.parse().ok()?;
+    let mm: usize = mm.parse().ok()?;
+    let sel: Vec<usize> = list_of(sel)?;
+    let a_int = uint_of(aval)?;
+    let (step, tail, maxpolys): (usize, usize, usize) =
+        (step.parse().ok()?, tail.parse().ok()?, maxpolys.parse().ok()?);
+    let nint = Int::cast_from(nk);
+    let fb = FBase::new(nint, fbsize);
+    let mut out = header(&nk, &fb);
+    write!(out, " nf={} mm={mm} want=0", sel.len()).unwrap();
+    if sel.iter().any(|&i| i >= fb.len()) {
+        return Some(out + " | sel-panic");
+    }
+    let factors: Vec<_> = sel.iter().map(|&i| fb.prime(i)).collect();
+    let mut inverses = vec![];
+    for p in &factors {
+        let mut row = vec![];
+        for q in &factors {
+            row.push(if p.p == q.p {
+                0
+            } else {
+                match yamaquasi::arith::inv_mod64(p.p, q.p) {
+                    Some(x) => x as u32,
+                    None => return Some(out + " | sel-panic"),
+                }
+            });
+        }
+        inverses.push(row);
+    }
+    let f = siqs::Factors {
+        n: nint,
+        target: bnum::types::U256::ONE,
+        nfacs: sel.len(),
+        factors,
+        inverses,
+    };
+    Some(siqs_body(out, &nint, &fb, &f, &a_int, mm, step, tail, maxpolys))
+}
+
+#[allow(clippy::too_many_arguments)]
+fn siqs_body(
+    mut out: String,
+    nint: &Int,
+    fb: &FBase,
+    f: &siqs::Factors,
+    a_int: &Uint,
+    mm: usize,
+    step: usize,
+    tail: usize,
+    maxpolys: usize,
+) -> String {
+    let nint = *nint;
+    let a_int = *a_int;
     let so: i64 = -(mm as i64) / 2; // as in sieve_a
     write!(
         out,
-        " sel={} tgt={} na={} a={} so={} |",
+        " sel={} a={} so={} |",
         show_list(&f.factors.iter().map(|p| p.p).collect::<Vec<_>>()),
-        f.target,
-        a_ints.len(),
         a_int,
         so
     )
     .unwrap();
     let prefs = Preferences::default();
     let r = catch_unwind(AssertUnwindSafe(|| {
-        let s = siqs::SieveSIQS::new(nint, &fb, fb.bound() as u64, 0, mm, &prefs);
-        let pa = siqs::prepare_a(&f, &a_int, &fb, so);
+        let s = siqs::SieveSIQS::new(nint, fb, fb.bound() as u64, 0, mm, &prefs);
+        let pa = siqs::prepare_a(f, &a_int, fb, so);
         let (av, afacs, fidx, roots, deltas, root0, rp) = siqs::verif_hooks_poly::vh_a_fields(&pa);
         write!(
             out,
@@ -141,7 +204,7 @@ fn siqs_walk(a: &[&str]) -> Option<String> {
     if r.is_err() {
         out += " panic";
     }
-    Some(out)
+    out
 }
 
 /// mpqs_poly n k fbsize mm d
@@ -250,6 +313,7 @@ fn qs_roots(a: &[&str]) -> Option<String> {
 pub fn handle(op: &str, a: &[&str]) -> Option<String> {
     match op {
         "siqs_walk" => siqs_walk(a),
+        "siqs_custom" => siqs_custom(a),
         "mpqs_poly" => mpqs_poly(a),
         "mpqs_batchinv" => mpqs_batchinv(a),
         "qs_roots" => qs_roots(a),
